@@ -972,9 +972,11 @@ def Mem.doctorStage2 (m2 : Mem) (any rv : Bool) (ftB : Nat) : Mem :=
 
 /-- `Memvid::doctor(path, opts)` on the closed file (the harness drops the handle first and opens it
     again afterwards): open (with WAL replay), optional vacuum, then — when any rebuild was requested —
-    `apply_pending_rebuilds` followed by `reset_wal`.  The frame table is only touched by the vacuum. -/
+    `apply_pending_rebuilds` followed by `reset_wal`; the final Verify phase resets the WAL in any case
+    (sequence numbers restart at 0 after every doctor run).  The frame table is only touched by the vacuum. -/
 def Mem.doctor (m : Mem) (vac rt rl rv : Bool) (ftDrop ftA ftB ftOpen : Nat) : Mem × Out :=
-  ((((m.doctorStage1 vac ftDrop ftA ftB).doctorStage2 (rt || rl || rv) rv ftB).dropHandle ftB).openFrom ftOpen, .ok)
+  -- the Verify phase that ends every run clears the WAL once more ("final WAL cleanup")
+  (((((m.doctorStage1 vac ftDrop ftA ftB).doctorStage2 (rt || rl || rv) rv ftB).resetWal).dropHandle ftB).openFrom ftOpen, .ok)
 
 def step (m : Mem) : Op → Mem × Out
   | .create => (Mem.create, .ok)
